@@ -120,6 +120,16 @@ def run(ctx):
                 rp = f.root_local(r.args[0], through_calls=(r'::as_ref$', r'::deref$', r'::as_path$'))
                 if rp is not None and rp == p and (f.can_reach(c.bb, r.bb)):
                     ok = True
+            if not ok and p is not None:
+                # the publish step in a private helper (`publish_tmp(&tmp, &final)`): a callee of the crate that renames FROM the parameter this path is handed to
+                for h_ in f.sites():
+                    H_ = P.fns.get(h_.callee or '')
+                    if H_ is None or H_.crate != 'ripd' or not f.can_reach(c.bb, h_.bb):
+                        continue
+                    for k_, a_ in enumerate(h_.args):
+                        if f.root_local(a_, through_calls=(r'::as_ref$', r'::deref$', r'::as_path$')) == p and any(
+                                H_.root_local(r_.args[0], through_calls=(r'::as_ref$', r'::deref$', r'::as_path$')) == k_ + 1 for r_ in H_.calls(RENAME)):
+                            ok = True
             ctx.ob('C05.3', f, 'tmp-then-rename:' + c.name, ok,
                    '%s(%s) %s' % (c.name, f.lname(p) if p is not None else '?', 'is followed by rename of the same path into place' if ok else 'creates the final file IN PLACE (no rename of that path follows): a crash leaves a torn file under its real name'), line=c.line)
     ctx.floor('C05.3', 'file creations in ripd', n, 18)
